@@ -2,8 +2,8 @@
 
 Engine E1 with the `reload` event (conf_read() of a file = the body of the SIGUSR1 handler).  For every sequence
 of <= 2 (thorough: 3) reloads over a universe of 16 service tables (two names x {absent, login, dronecheck,
-login-ipr}) and over a universe of 16 rule tables (two rule names x {absent, class k1 on account ka*, class k2 on
-account kb*, class k1 catch-all}), started on every table of the universe, with and without a client that is left
+login-ipr}) and over a universe of 12 rule tables (rule r1 in {absent, class k1 on account ka*, class k2 on account
+kb*, class k1 catch-all, class k1 on account kb*, account ka* without class} x rule r2 in {absent, catch-all k3}), started on every table of the universe, with and without a client that is left
 waiting on its queries across the reloads:  after the last reload a suite of probe clients is run (full data +
 password answered OK with two different accounts, refused by each service, no password, hurry-up) and everything
 the daemon writes - which services it asks, with which query, the verdict and class, the configured entries of
@@ -17,9 +17,14 @@ from .. import common, build, e1, e3
 SNAMES = ['s1.svc', 's2.svc']
 STYPES = [None, 'login', 'dronecheck', 'login-ipr']
 RNAMES = ['r1', 'r2']
-RKINDS = [None, {'class': 'k1', 'account': 'ka*'}, {'class': 'k2', 'account': 'kb*'}, {'class': 'k1'}]
+RKINDS = [None, {'class': 'k1', 'account': 'ka*'}, {'class': 'k2', 'account': 'kb*'}, {'class': 'k1'}, {'class': 'k1', 'account': 'kb*'}, {'account': 'ka*'}]
+R2KINDS = [None, {'class': 'k3'}]          # the second rule: absent or a catch-all that sorts after r1
 FIXED_RULES = [('r1', {'class': 'k1', 'account': 'ka*'}), ('r2', {'class': 'k2'})]
 FIXED_SERVICES = [('s1.svc', 'login'), ('s2.svc', 'dronecheck')]
+
+
+def tables_universe():
+    return {'services': list(itertools.product(STYPES, repeat=2)), 'rules': list(itertools.product(RKINDS, R2KINDS))}
 
 
 def svc_table(t):
@@ -189,20 +194,20 @@ def main(tier):
         raise common.HarnessError(str(e))
     quick = run.tier == 'quick'
     _G['b'] = b
-    _G['tables'] = {'services': list(itertools.product(STYPES, repeat=2)), 'rules': list(itertools.product(RKINDS, repeat=2))}
+    _G['tables'] = tables_universe()
     depth = 2 if quick else 3
     fresh = {}
     nseq = ntrace = 0
     mism = 0
     with mp.get_context('fork').Pool(16) as pool:
-        for r in pool.imap_unordered(_fresh, [(u, i) for u in ('services', 'rules') for i in range(16)]):
+        for r in pool.imap_unordered(_fresh, [(u, i) for u in ('services', 'rules') for i in range(len(_G['tables'][u]))]):
             if isinstance(r, dict):
                 raise common.HarnessError(r['harness_error'])
             u, i, rec, died = r
             if died:
                 raise common.HarnessError('fresh daemon died on a probe: %s' % died)
             fresh[(u, i)] = rec
-        items = [(u, t0, depth, w) for u in ('services', 'rules') for w in (False, True) for t0 in range(16)]
+        items = [(u, t0, depth, w) for u in ('services', 'rules') for w in (False, True) for t0 in range(len(_G['tables'][u]))]
         for g in pool.imap_unordered(_group, items):
             if 'harness_error' in g:
                 raise common.HarnessError(g['harness_error'])
@@ -234,20 +239,21 @@ def main(tier):
     if not run.out_of_time(60):
         sample = []
         for u in ('services', 'rules'):
-            seqs = [(t0, (a,)) for t0 in (0, 5, 10, 15) for a in (1, 6, 11)] + [(t0, (a, c)) for t0 in (3, 12) for a in (9, 14) for c in (2, 5, 7)]
+            nt = len(_G['tables'][u])
+            seqs = [(t0 % nt, (a % nt,)) for t0 in (0, 5, 10, 15) for a in (1, 6, 11)] + [(t0 % nt, (a % nt, c % nt)) for t0 in (3, 12) for a in (9, 14) for c in (2, 5, 7)]
             if not quick:
-                seqs += [(t0, (a, c)) for t0 in range(0, 16, 3) for a in range(1, 16, 4) for c in range(2, 16, 5)]
+                seqs += [(t0, (a, c)) for t0 in range(0, nt, 3) for a in range(1, nt, 4) for c in range(2, nt, 5)]
             nsig += e3_sigusr1(run, b, u, seqs, fresh)
     if nseq < 500 and not run.violations:
         raise common.HarnessError('vacuous: %d sequences' % nseq)
     distinct_fresh = len({repr(sorted(v.items())) for v in fresh.values()})
-    if distinct_fresh < 12 and not run.violations:
-        raise common.HarnessError('vacuous: the probes distinguish only %d of the 32 tables' % distinct_fresh)
+    if distinct_fresh < 10 and not run.violations:
+        raise common.HarnessError('vacuous: the probes distinguish only %d of the tables' % distinct_fresh)
     cov = {'states': nseq, 'transitions': ntrace, 'traces_validated_against_impl': ntrace + nsig,
            'samples': [['start ' + tstr('services', _G['tables']['services'][5]), 'reload ' + tstr('services', _G['tables']['services'][9]), 'probe ok-ka1: ' + ' | '.join(probes(1)['ok-ka1'])],
                        ['start ' + tstr('rules', _G['tables']['rules'][1]), 'reload ' + tstr('rules', _G['tables']['rules'][2]), 'probe ok-kb1']],
-           'exhaustive': not run.capped, 'reload_depth': depth, 'tables_per_universe': 16, 'probes': list(probes(1)), 'probe_mismatches': mism,
-           'distinct_fresh_behaviours_of_32_tables': distinct_fresh, 'sigusr1_sequences_through_unmodified_daemon': nsig,
+           'exhaustive': not run.capped, 'reload_depth': depth, 'tables_per_universe': {u: len(t) for u, t in _G['tables'].items()}, 'probes': list(probes(1)), 'probe_mismatches': mism,
+           'distinct_fresh_behaviours_of_the_tables': distinct_fresh, 'sigusr1_sequences_through_unmodified_daemon': nsig,
            'explanation': 'a state is the module state reached by (start table, reload sequence, waiting client or not); every one is reached on the real daemon and probed; transitions = probe '
                           'conversations run; the oracle is the same daemon freshly started on the last file (32 fresh references)'}
     return run.finish(cov, assumptions=['the order of two queries written in one step and the order of entries in the ? config report are not compared (service slots legitimately differ)',
@@ -258,7 +264,7 @@ def replay(obj):
     r = obj['replay']
     b = build.build()
     _G['b'] = b
-    _G['tables'] = {'services': list(itertools.product(STYPES, repeat=2)), 'rules': list(itertools.product(RKINDS, repeat=2))}
+    _G['tables'] = tables_universe()
     u = r['universe']
     tables = _G['tables'][u]
     moddir = os.path.join(b, 'mods-wrapped')
